@@ -398,12 +398,16 @@ Fixpoint dns_labels (fuel : nat) (p : slice) (offset index : nat) (acc : list by
   | O => Fuel
   | S f =>
     (b <- idx p index ;;
-     if b =? 0 then Ok (rev acc, index) else
+     (* repo commit 5b0d6a4 (DNS): after the loop, more than 254 octets of labels (a name of more than 255
+        octets on the wire) => ErrParseFrame *)
+     if b =? 0 then (if Nat.ltb 254 (index - offset) then Err EParseFrame else Ok (rev acc, index)) else
      if negb (N.land b 192 =? 0) then Err ENotFound else
      let index2 := (index + N.to_nat b + 1)%nat in
      if Nat.ltb 255 (index2 - offset) then Err EParseFrame else
      if Nat.ltb (len p) index2 then Err EParseFrame else
      lab <- sl p (index + 1) index2 ;;
+     (* repo commit c8663df (DNS): a label containing '.' => ErrParseFrame *)
+     if existsb (N.eqb 46) (view lab) then Err EParseFrame else
      if Nat.leb (len p) index2 then Err EParseFrame else
      dns_labels f p offset index2 (view lab :: acc))%res
   end.
